@@ -366,7 +366,7 @@ impl Property for Prop {
         "C17"
     }
     fn rule(&self) -> &'static str {
-        "exhaustive: for memories of 1..=4 slots every operation sequence of the given depth (quick 5, thorough 7) over provision(size below / at / above the configured size), new_pdu, new_frag(id), take_frag(id) for ids {0,1,slots,slots+1,255} and save_frag(oldest held context; a refused save may drop the offered buffer or keep it as a free buffer, nothing else may change); key = (slots, first two operations); after every operation the result is compared with an executable bag model (free-list capacity calibrated on a fresh memory, not assumed), after every sequence a drained clone is compared with the model. random: seeded sequences of 200..10000 operations incl. save under a different id and save of a foreign, shorter buffer; slots 1..=5, 7, 255 and 256 (ids 0, 1, 254, 255, 128 there). sizes: configured PDU sizes 0, 1, 255, 256, 4095, 4096, 65535..65537, 70000, 131072 x buffers of size-2..size+1. Buffers carry a tag in every byte (contents never modified). A sequence is non-trivial when it contains at least one successful save_frag; fingerprint = hash(slots, sequence)."
+        "exhaustive: for memories of 1..=4 slots every operation sequence of the given depth (quick 5, thorough 7) over provision(size below / at / above the configured size), new_pdu, new_frag(id), take_frag(id) for ids {0,1,slots,slots+1,255} and save_frag(oldest held context; a refused save may drop the offered buffer or keep it as a free buffer, nothing else may change); key = (slots, first two operations); after every operation the result is compared with an executable bag model (free-list capacity calibrated on a fresh memory, not assumed), after every sequence a drained clone is compared with the model. random: seeded sequences of 200..10000 operations incl. save under a different id and save of a foreign, shorter buffer; slots 1..=5, 7, 255 and 256 (ids 0, 1, 254, 255, 128 there). noslot: memories built with 0 slots: 60-operation sequences, every fragment operation answers with an error (take_frag: UndefinedId, memory unchanged), no panic, the free list keeps working. sizes: configured PDU sizes 0, 1, 255, 256, 4095, 4096, 65535..65537, 70000, 131072 x buffers of size-2..size+1. Buffers carry a tag in every byte (contents never modified). A sequence is non-trivial when it contains at least one successful save_frag; fingerprint = hash(slots, sequence)."
     }
     fn gens(&self, cx: &Cx) -> Vec<Gen> {
         let mut n = 0u64;
@@ -374,7 +374,7 @@ impl Property for Prop {
             let a = alphabet(s).len() as u64;
             n += a * a;
         }
-        vec![Gen { name: "exhaustive", count: n, exhaustive: true }, Gen { name: "random", count: cx.n(400, 20_000), exhaustive: false }, Gen { name: "sizes", count: 12, exhaustive: true }, Gen { name: "allpending", count: 6, exhaustive: true }]
+        vec![Gen { name: "exhaustive", count: n, exhaustive: true }, Gen { name: "random", count: cx.n(400, 20_000), exhaustive: false }, Gen { name: "sizes", count: 12, exhaustive: true }, Gen { name: "allpending", count: 6, exhaustive: true }, Gen { name: "noslot", count: 12, exhaustive: true }]
     }
     fn run_key(&self, cx: &Cx, gen: &str, key: u64, rep: &mut Report) {
         let replay_s = format!("gen={} key={} seed={} profile={}", gen, key, cx.seed, cx.profile);
@@ -417,6 +417,82 @@ impl Property for Prop {
                 if key == 40 {
                     rep.sample(|| format!("exhaustive: slots {} (calibrated free-list capacity {}), all sequences starting [{}; {}] agree with the bag model", slots, cap, op_str(&seq[0]), op_str(&seq[1])));
                 }
+            }
+            "noslot" => {
+                // a memory built with no slot at all (a receiver of complete PDUs only): every fragment operation
+                // answers with an error (take_frag: UndefinedId) and leaves the memory as it was, never a panic;
+                // the free list keeps working
+                let mut rng = Rng::derive(cx.seed, fnv(gen.as_bytes()), key);
+                let mut m = SimpleGseMemory::new(0, PDU_SIZE, 0, 0);
+                let mut free = 0usize;
+                for step in 0..60usize {
+                    rep.eval();
+                    let id = [0u8, 1, 255, 128][rng.below(4)];
+                    let snap = m.clone();
+                    let what = rng.below(5);
+                    let bad: Option<String> = match what {
+                        0 => match guard(|| m.provision_storage(mk_buf(step as u8, PDU_SIZE))) {
+                            Ok(Ok(())) => {
+                                free += 1;
+                                None
+                            }
+                            Ok(Err(_)) => None,
+                            Err(p) => Some(format!("provision_storage panicked: {}", p)),
+                        },
+                        1 => match guard(|| m.new_pdu()) {
+                            Ok(Ok(_)) if free > 0 => {
+                                free -= 1;
+                                None
+                            }
+                            Ok(Err(_)) if free == 0 => None,
+                            Ok(r) => Some(format!("new_pdu -> {} with {} free buffers", if r.is_ok() { "a buffer" } else { "an error" }, free)),
+                            Err(p) => Some(format!("new_pdu panicked: {}", p)),
+                        },
+                        2 => match guard(|| m.take_frag(id)) {
+                            Ok(Err(DecapMemoryError::UndefinedId)) if m == snap => None,
+                            Ok(Err(e)) => Some(format!("take_frag(id {}) -> {:?}, memory unchanged: {}", id, e, m == snap)),
+                            Ok(Ok(_)) => Some(format!("take_frag(id {}) returned a context", id)),
+                            Err(p) => Some(format!("take_frag(id {}) panicked: {}", id, p)),
+                        },
+                        3 => match guard(|| m.new_frag(ctx(id, step as u16))) {
+                            Ok(Err(_)) if m == snap => None,
+                            Ok(Err(e)) => Some(format!("new_frag(id {}) -> {:?} and the memory changed", id, e)),
+                            Ok(Ok(_)) if free > 0 => {
+                                free -= 1;
+                                None
+                            }
+                            Ok(Ok(_)) => Some(format!("new_frag(id {}) returned a buffer although none is free", id)),
+                            Err(p) => Some(format!("new_frag(id {}) panicked: {}", id, p)),
+                        },
+                        _ => match guard(|| m.save_frag((ctx(id, step as u16), mk_buf(200, PDU_SIZE)))) {
+                            Ok(Err(_)) => {
+                                // (a refused save may keep the offered buffer as a free buffer)
+                                let mut probe = m.clone();
+                                let mut n = 0;
+                                while probe.new_pdu().is_ok() {
+                                    n += 1;
+                                }
+                                if n == free || n == free + 1 {
+                                    free = n;
+                                    None
+                                } else {
+                                    Some(format!("save_frag(id {}) refused, but {} buffers are free afterwards ({} before)", id, n, free))
+                                }
+                            }
+                            Ok(Ok(())) => match guard(|| m.take_frag(id)) {
+                                Ok(Ok(_)) => None,
+                                _ => Some(format!("save_frag(id {}) accepted by a memory without slots, the context cannot be taken back", id)),
+                            },
+                            Err(p) => Some(format!("save_frag(id {}) panicked: {}", id, p)),
+                        },
+                    };
+                    if let Some(d) = bad {
+                        rep.violation("C17", format!("no-slot-memory:{}", ["provision_storage", "new_pdu", "take_frag", "new_frag", "save_frag"][what]), || format!("memory with 0 slots, step {}: {}", step, d), &replay);
+                        return;
+                    }
+                }
+                rep.count("c17.sequences");
+                rep.count("c17.noslot-sequences");
             }
             "allpending" => {
                 // a context pending on EVERY fragment id at once (256 / 300-slot memories): each comes back exactly as
